@@ -27,6 +27,7 @@ type hmacGen struct {
 	S     int64 // signed timestamp of the base request
 	full  bool  // thorough-tier extras
 	probe bool  // base request is a completeness probe
+	pairs bool  // also every 2-element mutation (thorough tier, selected bubbles)
 	nonce func() string
 	out   []*reqCase
 }
@@ -163,6 +164,28 @@ func (g *hmacGen) all() []*reqCase {
 			b[i] ^= 1 << uint(bit)
 			v := string(b)
 			g.emit("sig:bitflip", fmt.Sprintf("char=%d,bit=%d", i, bit), func(c *reqCase) { setH(c, sigH, v) })
+		}
+	}
+	if g.pairs {
+		// every pair of single-bit flips in the signature text (130 816 cases)
+		for p := 0; p < len(sig)*8; p++ {
+			for q := p + 1; q < len(sig)*8; q++ {
+				b := []byte(sig)
+				b[p/8] ^= 1 << uint(p%8)
+				b[q/8] ^= 1 << uint(q%8)
+				v := string(b)
+				g.emit("sig:bitflip-pair", fmt.Sprintf("bits=%d,%d", p, q), func(c *reqCase) { setH(c, sigH, v) })
+			}
+		}
+		// every pair of single-bit flips in the body (8128 cases)
+		for p := 0; p < len(baseBody)*8; p++ {
+			for q := p + 1; q < len(baseBody)*8; q++ {
+				p, q := p, q
+				g.emit("body:bitflip-pair", fmt.Sprintf("bits=%d,%d", p, q), func(c *reqCase) {
+					c.Body[p/8] ^= 1 << uint(p%8)
+					c.Body[q/8] ^= 1 << uint(q%8)
+				})
+			}
 		}
 	}
 	// every single-character substitution over [0-9a-f]
